@@ -6,13 +6,32 @@
 (* the real lexer.                                                          *)
 EXTENDS XjsLexer, Json
 
-CONSTANTS MaxLen, Alphabets, Extra, Export
+CONSTANTS MaxLen, Alphabets, Extra, RepMax, Export
 
 VARIABLES src, alpha
 vars == <<src, alpha>>
 
-Init == src = <<>> /\ alpha \in 1..Len(Alphabets)
-Next == /\ Len(src) < MaxLen[alpha]
+\* repetition strings: prefix \o c^k \o suffix for k up to RepMax - lexemes whose scanners count
+\* (hex digits of \u{...}, digits, operator runs, escapes) are driven past their thresholds
+RECURSIVE Pow(_, _)
+Pow(c, k) == IF k = 0 THEN <<>> ELSE c \o Pow(c, k - 1)
+RepTriples ==
+  { <<<<34, 92, 117, 123>>, <<48>>, <<52, 49, 125, 34>>>>,        \* "\u{0...041}"
+    <<<<34, 92, 117, 123>>, <<70>>, <<125, 34>>>>,                \* "\u{F...F}"
+    <<<<39, 92, 120>>, <<52>>, <<39>>>>,                          \* '\x4...'
+    <<<<34, 92, 117>>, <<48>>, <<34>>>>,                          \* "\u0..."
+    <<<<>>, <<49>>, <<>>>>, <<<<48, 120>>, <<70>>, <<>>>>, <<<<48, 98>>, <<49>>, <<>>>>, <<<<49, 101>>, <<57>>, <<>>>>,
+    <<<<49, 46>>, <<48>>, <<>>>>, <<<<49>>, <<95, 48>>, <<>>>>,
+    <<<<>>, <<61>>, <<>>>>, <<<<>>, <<43>>, <<>>>>, <<<<>>, <<45>>, <<97>>>>, <<<<>>, <<38>>, <<>>>>, <<<<97>>, <<33>>, <<61>>>>,
+    <<<<96>>, <<92>>, <<96>>>>, <<<<96>>, <<92, 96>>, <<96>>>>, <<<<34>>, <<92>>, <<34>>>>,
+    <<<<47, 47>>, <<32>>, <<10, 97>>>>, <<<<97>>, <<10>>, <<98>>>>, <<<<97>>, <<13, 10>>, <<98>>>>, <<<<97>>, <<13>>, <<98>>>>,
+    <<<<239, 187, 191>>, <<97>>, <<>>>>, <<<<35, 33>>, <<97>>, <<10, 98>>>>, <<<<>>, <<239, 187, 191>>, <<97>>>>,
+    <<<<108, 101, 116, 32>>, <<195, 169>>, <<32, 61>>>>, <<<<34>>, <<226, 128, 168>>, <<34, 32, 97>>>> }
+Reps == {tr[1] \o Pow(tr[2], k) \o tr[3] : tr \in RepTriples, k \in 0..RepMax}
+
+Init == \/ src = <<>> /\ alpha \in 1..Len(Alphabets)
+        \/ alpha = 0 /\ src \in Reps
+Next == /\ alpha > 0 /\ Len(src) < MaxLen[alpha]
         /\ \E b \in Alphabets[alpha] : src' = Append(src, b)
         /\ UNCHANGED alpha
 Spec == Init /\ [][Next]_vars
